@@ -189,13 +189,21 @@ func (w *C16) Run(t *rt.Tape, trace bool, seed uint64) *core.Result {
 		garbleRand = func(r io.Reader) io.Reader { return &simrand.ShortReader{R: r, Block: block} }
 		res.Reach["garbler-randomness.short-reads-at-block-boundaries"]++
 	}
+	// the verbose flag of either party (a quarter of the cases each): reports, never results
+	verbG, verbE := t.Choose(rt.SGen, 4) == 0, t.Choose(rt.SGen, 4) == 0
+	if verbG || verbE {
+		res.Reach["option.verbose"]++
+	}
 	smp := Sample{Circuit: gen.Describe(circ), X: in[0].Text(16), Y: in[1].Text(16), OT: OTNames[kind], GE: core.DescribeDir(dir), EG: core.DescribeDir(dir)}
+	if verbG {
+		smp.Second = "garbler verbose"
+	}
 	res.Class = "whole-circuit ot=" + OTNames[kind]
 	h := sha256.New()
 
 	// clean reference session: transcript lengths
 	rt.AllocPeak = 0
-	ref := Run(t, Session{Circ: circ, X: in[0], Y: in[1], OT: kind, Pipe: pipe, Trace: false, GarbleRand: garbleRand})
+	ref := Run(t, Session{Circ: circ, X: in[0], Y: in[1], OT: kind, Pipe: pipe, Trace: false, GarbleRand: garbleRand, VerboseG: verbG, VerboseE: verbE})
 	// The corrupted sessions run on a machine with 8 times the memory the clean
 	// session needed per request: a corrupted count then ends in an allocation
 	// failure (a crashed party) instead of hours of work on 2^24 phantom wires.
@@ -229,7 +237,7 @@ func (w *C16) Run(t *rt.Tape, trace bool, seed uint64) *core.Result {
 		simnet.Reset()
 		p := pipe
 		p.AB.Faults, p.BA.Faults = ge, eg
-		o := Run(t, Session{Circ: circ, X: in[0], Y: in[1], OT: kind, Pipe: p, Trace: trace, AbortOnStall: true, GarbleRand: garbleRand})
+		o := Run(t, Session{Circ: circ, X: in[0], Y: in[1], OT: kind, Pipe: p, Trace: trace, AbortOnStall: true, GarbleRand: garbleRand, VerboseG: verbG, VerboseE: verbE})
 		h.Write([]byte(o.RR.Hash))
 		res.Steps += o.RR.Steps
 		res.Switches += o.RR.Switches
